@@ -90,6 +90,15 @@ def collapseSpTabAux : Bool → Str → Str
 
 def collapseSpTab (s : Str) : Str := collapseSpTabAux false s
 
+/-- `re.sub(r"\\?\n", " ", text)` of `render_heading`: line breaks inside a heading become spaces -/
+def unbreak : Str → Str
+  | [] => []
+  | [a] => if a == '\n' then [' '] else [a]
+  | a :: b :: rest =>
+    if a == '\\' && b == '\n' then ' ' :: unbreak rest
+    else if a == '\n' then ' ' :: unbreak (b :: rest)
+    else a :: unbreak (b :: rest)
+
 def findLabel (defs : List (Str × Str × Option Str)) (dest : Str) (title : Option Str) : Option Str :=
   (defs.find? fun d => d.2.1 == dest && defTitle d.2.2 == title).map (·.1)
 
@@ -106,7 +115,7 @@ mutual
       let t := title.map normalizeTitle
       match findLabel cfg.defs dest t with
       | some label =>
-        if label == r.1 then ('[' :: label ++ [']'], r.2)
+        if label == joinSp (pySplit r.1) then ('[' :: label ++ [']'], r.2)
         else ('[' :: r.1 ++ "][".toList ++ label ++ [']'], r.2)
       | none =>
         let tt : Str := match t with | some x => ' ' :: x | none => []
@@ -255,7 +264,8 @@ mutual
        { st with skipBlank := false, pfx := st.snd, suppress := false })
     | .hr => (st.pfx ++ "* * *\n".toList, { st with pfx := st.snd })
     | .heading level cs _ =>
-      let r := renderInlines cfg true [] cs
+      let r0 := renderInlines cfg true [] cs
+      let r := (unbreak r0.1, r0.2)
       let head := st.pfx ++ List.replicate level '#' ++ ' ' :: r.1
       if r.1.getLast? == some '\\' then
         (head ++ ['\n'], { st with acc := [], pfx := st.snd })
